@@ -248,7 +248,7 @@ impl Monitor for C06 {
         "C06"
     }
     fn gens(&self, tier: Tier) -> Vec<(&'static str, u64)> {
-        vec![("pairs", tier.pick(4200, 420_000)), ("grid", tier.pick(700, 14_000))]
+        vec![("pairs", tier.pick(420_000, 8_400_000)), ("grid", tier.pick(70_000, 700_000))]
     }
     fn rule(&self) -> &'static str {
         "pairs: case = (objective, family, length 1..8, flat or 3-D factorisation); families for AE/MAE/MSE/RMSE: random (scales 1e-3..1e5), some-equal, ulp-differences, tiny-differences (1e-44..1e-10), large-magnitudes (1e8..1e15), boundary-grid; for CE/BCE/KL: random-interior, one-hot-target, boundary-grid {0,1,1e-6,1-1e-6,denormals,..}, equal-pairs, exact-zeros-and-ones, distributions. Every case: loss vs documented formula (running f32 error bound), loss finite, gradient vs documented formula (1e-5 relative), gradient shape == prediction shape, a clamp interval applied: loss unchanged and gradient == unclamped gradient limited to the interval bit-for-bit; interior cases of AE/MSE/BCE/KL additionally: gradient == dual-number derivative of the documented loss and ~ central difference of the library's own loss(). grid: full product of boundary values for vectors of length <= 3. Distinct = distinct (objective, family, shape, data hash)."
